@@ -2,12 +2,12 @@
    Each property cluster contributes a fragment D_xxx.v exporting a function
    [string -> val -> option val]; the first fragment that knows the op answers. *)
 From Coq Require Import List String.
-From NGS Require Import Val D_C09 D_C03 D_C20 D_C01 D_C13 D_C11 D_C15 D_C16 D_C17 D_C08 D_C04 D_C12.
+From NGS Require Import Val D_C09 D_C03 D_C20 D_C01 D_C13 D_C11 D_C15 D_C16 D_C17 D_C08 D_C04 D_C12 D_C02.
 Import ListNotations.
 Open Scope string_scope.
 
 Definition fragments : list (string -> val -> option val) :=
-  [ d_c09; d_c03; d_c20; d_c01; d_c13; d_c11; d_c15; d_c16; d_c17; d_c08; d_c04; d_c12 ].
+  [ d_c09; d_c03; d_c20; d_c01; d_c13; d_c11; d_c15; d_c16; d_c17; d_c08; d_c04; d_c12; d_c02 ].
 
 Fixpoint first_some (fs : list (string -> val -> option val)) (op : string) (a : val) : val :=
   match fs with
